@@ -305,6 +305,14 @@ def make_case(ctx, g):
                  (True, Literal("true", QualifiedName(Namespace("xsd", XSDU), "boolean"))),
                  (False, Literal("0", QualifiedName(Namespace("xsd", XSDU), "boolean"))),
                  (0.5, Literal("0.5", QualifiedName(Namespace("xsd", XSDU), "double"))),
+                 # other lexical forms of the same numbers (xsd:double needs no digit on either side of the point; integers may
+                 # carry a sign and leading zeros)
+                 (0.5, Literal(".5", QualifiedName(Namespace("xsd", XSDU), "double"))),
+                 (5.0, Literal("5.", QualifiedName(Namespace("xsd", XSDU), "double"))),
+                 (-25.0, Literal("-.25E2", QualifiedName(Namespace("xsd", XSDU), "double"))),
+                 (1000.0, Literal("1e3", QualifiedName(Namespace("xsd", XSDU), "double"))),
+                 (7, Literal("007", QualifiedName(Namespace("xsd", XSDU), "int"))),
+                 (5, Literal("+5", QualifiedName(Namespace("xsd", XSDU), "long"))),
                  ("text", Literal("text", QualifiedName(Namespace("xsd", XSDU), "string"))),
                  ("plain", Literal("plain")),
                  ("Cafe\u0301 \u212b", Literal("Cafe\u0301 \u212b", QualifiedName(Namespace("xsd", XSDU), "string"))),
